@@ -30,6 +30,7 @@ RULE = ("contract on Models.__init__ / update_interpolation / shift_x_base / "
         "with a degenerate event followed by recovery; distinct = (n, npt, "
         "#models, operation pattern)")
 RULE += ("  Also: every evaluation whose values reach the models contains an objective call (values measured in that evaluation); long default-option runs to convergence.")
+RULE += (" The image (before projection) of the point the values are recorded for is where they were measured.")
 ASSUMPTIONS = [
     "a numerically singular interpolation system carries no claim (skipped, "
     "counted); the bound recovers on reset_models",
